@@ -39,7 +39,7 @@ META = {
         "(all buffer sizes again), and once more by ONE parser object that ran to end of input and was rewound with seek(0); "
         "one token of 4095..9000 bytes of every lexical class (beyond the default buffer and CPython's 4300-digit int limit); "
         "the token objects of every two runs are also compared with the library's own == (names and keywords are interned "
-        "objects), also after 40000 distinct names were tokenised in the process; every string over the 27-symbol alphabet up to seek_len "
+        "objects), also after 70000 distinct names were tokenised in the process; every string over the 27-symbol alphabet up to seek_len "
         "(and over the 13 steering symbols up to sigma12_len-1) once more with settings.STRICT=True (nothing but end of input may be signalled in either mode), and once more with the parser's "
         "read-only helpers tell(), poll() and poll(1,3) called between every two tokens (the sequence must equal the run without them, for every buffer size); every string over the 13 steering symbols up to sigma12_len-2 with DEBUG logging enabled for the library's loggers; "
         "call histories on one parser object: every sequence of up to 3 (thorough: 4) calls from {nexttoken, nextline, one step of revreadlines(), the underlying file moved by someone else} on 3 structured inputs, "
@@ -512,14 +512,14 @@ def _run_shard(shard, tier, st):
         st.sample({"family": "long", "units": LONG_UNITS, "lengths": LONG_LENGTHS})
         return
     if fam == "names":
-        # 40000 distinct names and keywords in one process, then the interning contract again
-        blob = b" ".join(b"/N%d k%d" % (i, i) for i in range(40000))
+        # 70000 distinct names and keywords in one process, then the interning contract again
+        blob = b" ".join(b"/N%d k%d" % (i, i) for i in range(70000))
         ref, prob = tokenize(blob, 4096)
         st.states += 1
         st.traces += 1
         st.case(None, nontrivial=True, outcome=("names", len(ref)))
         for kind, detail in prob[:3]:
-            st.violation(f"C14/{kind}:{detail if kind=='exception' else ''}", {"data": b"<40000 distinct names>", "bufsiz": 4096, "names": True}, "only PSEOF", detail, kind)
+            st.violation(f"C14/{kind}:{detail if kind=='exception' else ''}", {"data": b"<70000 distinct names>", "bufsiz": 4096, "names": True}, "only PSEOF", detail, kind)
         for data in (b"/Fresh1 fresh2 /N5 k7", b"obj endobj /Type"):
             check_string(data, st, "names")
         for v in st.violations:
